@@ -131,9 +131,17 @@ def load_more():
     here = os.path.dirname(os.path.abspath(__file__))
     sys.path.insert(0, here)
     import glob
+    seen = {n for n, _ in EXTRACTORS}
     for f in sorted(glob.glob(os.path.join(here, "x_*.py"))):
-        mod = __import__(os.path.basename(f)[:-3])
-        EXTRACTORS.extend(mod.EXTRACTORS)
+        try:
+            mod = __import__(os.path.basename(f)[:-3])
+        except Exception as e:
+            print("extract: cannot import %s: %r" % (f, e), file=sys.stderr)
+            continue
+        for n, fn in mod.EXTRACTORS:
+            if n not in seen:
+                seen.add(n)
+                EXTRACTORS.append((n, fn))
 
 def main():
     load_more()
@@ -145,8 +153,8 @@ def main():
         try:
             text, info = fn()
             status[name] = {"ok": True, "info": info}
-        except Broken as e:
-            status[name] = {"ok": False, "error": str(e)}
+        except Exception as e:  # Broken, or a bug in an extractor: either way that definition is not tied any more
+            status[name] = {"ok": False, "error": ("" if isinstance(e, Broken) else "extractor crashed: ") + repr(e) if not isinstance(e, Broken) else str(e)}
             text = fallback.get(name)
             if text is None:
                 text = "(* extractor %s broken and no fallback known *)\n" % name
@@ -158,7 +166,7 @@ def main():
                 fb[name] = ch.split("\n", 1)[1]
         json.dump(fb, open(fallback_path, "w"), indent=1, sort_keys=True)
     hdr = ("(* GENERATED by /verif/gen/extract.py from /repo's working tree on every run. Do not edit. *)\n"
-           "From Coq Require Import List ZArith Arith Strings.Byte.\nFrom WH Require Import lib.Layout.\nImport ListNotations.\nOpen Scope Z_scope.\n\n")
+           "From Coq Require Import List ZArith Arith Bool Strings.Byte.\nFrom WH Require Import lib.Layout.\nImport ListNotations.\nOpen Scope Z_scope.\n\n")
     out = hdr + "\n".join(chunks)
     path = os.path.join(VERIF, "coq", "gen", "Extracted.v")
     os.makedirs(os.path.dirname(path), exist_ok=True)
